@@ -129,6 +129,7 @@ struct BodyV<'a> {
     binders: Vec<String>,
     strlits: Vec<String>,
     nested_fns: u32,
+    call_of: std::collections::HashMap<usize, (usize, usize)>,
 }
 impl<'a, 'ast> Visit<'ast> for BodyV<'a> {
     fn visit_item_fn(&mut self, _i: &'ast syn::ItemFn) {
@@ -173,7 +174,26 @@ impl<'a, 'ast> Visit<'ast> for BodyV<'a> {
         ));
         visit::visit_expr_for_loop(self, e);
     }
+    fn visit_expr_method_call(&mut self, e: &'ast syn::ExprMethodCall) {
+        let cs = self.src.span(e.span());
+        for a in e.args.iter() {
+            if let syn::Expr::Closure(c) = a {
+                self.call_of.insert(self.src.span(c.span()).0, cs);
+            }
+        }
+        visit::visit_expr_method_call(self, e);
+    }
+    fn visit_expr_call(&mut self, e: &'ast syn::ExprCall) {
+        let cs = self.src.span(e.span());
+        for a in e.args.iter() {
+            if let syn::Expr::Closure(c) = a {
+                self.call_of.insert(self.src.span(c.span()).0, cs);
+            }
+        }
+        visit::visit_expr_call(self, e);
+    }
     fn visit_expr_closure(&mut self, e: &'ast syn::ExprClosure) {
+        let call = match self.call_of.get(&self.src.span(e.span()).0) { Some(c) => sp(*c), None => "null".to_string() };
         let mut ins = vec![];
         for p in e.inputs.iter() {
             let typed = matches!(p, syn::Pat::Type(_));
@@ -185,8 +205,9 @@ impl<'a, 'ast> Visit<'ast> for BodyV<'a> {
         }
         let body_is_block = matches!(&*e.body, syn::Expr::Block(_));
         self.closures.push(format!(
-            "{{\"span\":{},\"or1\":{},\"or2\":{},\"inputs\":[{}],\"body\":{},\"body_is_block\":{},\"has_output\":{}}}",
+            "{{\"span\":{},\"call\":{},\"or1\":{},\"or2\":{},\"inputs\":[{}],\"body\":{},\"body_is_block\":{},\"has_output\":{}}}",
             sp(self.src.span(e.span())),
+            call,
             sp(self.src.span(e.or1_token.span)),
             sp(self.src.span(e.or2_token.span)),
             ins.join(","),
@@ -328,6 +349,7 @@ impl<'a> Ctx<'a> {
             binders: vec![],
             strlits: vec![],
             nested_fns: 0,
+            call_of: Default::default(),
         };
         let body = match block {
             Some(b) => {
